@@ -3,7 +3,7 @@ package hx
 // Probe values of the struct-tag rule matrix (C06, C13): a probe token names a boundary value
 // of a field; SetProbe stores the concrete Go value into the (possibly pointer-typed) field.
 //
-//	nil            nil pointer            n:<t>        the number t/2
+//	nil            nil pointer            n:<t>        the number t/2      i:<v>  the integer v
 //	s:<kind>:<n>   string of n bytes: plain (a…), other (z…), email, url, uuid
 //	e:<n>          non-nil slice / map with n valid elements
 //	b:<0|1>        bool                   in:<0|1>     nested struct whose tagged field A is valid / invalid
@@ -111,6 +111,23 @@ func SetProbe(f reflect.Value, probe string) error {
 			target.SetFloat(float64(tw) / 2)
 		default:
 			return fmt.Errorf("numeric probe on %s", t)
+		}
+	case "i": // exact integer value (large and type-boundary values)
+		switch t.Kind() {
+		case reflect.Int, reflect.Int8, reflect.Int16, reflect.Int32, reflect.Int64:
+			v, err := strconv.ParseInt(parts[1], 10, t.Bits())
+			if err != nil {
+				return err
+			}
+			target.SetInt(v)
+		case reflect.Uint, reflect.Uint8, reflect.Uint16, reflect.Uint32, reflect.Uint64:
+			v, err := strconv.ParseUint(parts[1], 10, t.Bits())
+			if err != nil {
+				return err
+			}
+			target.SetUint(v)
+		default:
+			return fmt.Errorf("integer probe on %s", t)
 		}
 	case "s":
 		n, _ := strconv.Atoi(parts[2])
